@@ -746,6 +746,9 @@ func (x Expr) set(data, value any, fun string, one bool) error {
 					}
 				}
 			} else {
+				// The marker is shared by the siblings of prev, the next one
+				// has to be expanded as well.
+				stack[len(stack)-1] = di &^ descentFlag
 				stack = append(stack, prev)
 			}
 		case Union:
